@@ -18,6 +18,7 @@ import Noodles.Vcf.DriverC09Header
 import Noodles.Sam.DriverC06
 import Noodles.Util.DriverC20
 import Noodles.Io.DriverC12
+import Noodles.Io.DriverC12More
 import Noodles.Bgzf.DriverC16
 import Noodles.Cram.DriverC08
 import Noodles.Cram.DriverC07
@@ -42,7 +43,7 @@ def dispatch (line : String) : String :=
   | "c09" :: rest => (Vcf.DriverHeader.handle? rest).getD (Vcf.Driver.handle rest)
   | "c06" :: rest => Sam.Drv.handleC06 rest
   | "c20" :: rest => Util.handleC20 rest
-  | "c12" :: rest => IO.handleC12 rest
+  | "c12" :: rest => IO.handleC12All rest
   | "c16" :: rest => Bgzf.Async.handleC16 rest
   | "c08" :: rest => Cram.DriverC08.handle rest
   | "c07" :: rest => Cram.Drv.handleC07 rest
